@@ -200,7 +200,22 @@ def run(rng, tier, res=None, metrics=None):
                         viol("C07", f"{name}: value on integer arrays {vi!r} differs from value on equal float arrays {v1!r}", meta)
                 except Exception as ex:
                     viol("C07", f"{name} raised {type(ex).__name__} on integer arrays (caller data handling)", meta)
+                    viol("C06", f"{name} raised {type(ex).__name__} on integer-valued vectors instead of evaluating its closed form", meta)
+                    viol("C08", f"{name} raised {type(ex).__name__} on in-domain integer-valued vectors", meta)
                 res.hit("int_arrays")
+            # read-only views of the caller's data (memory-mapped / shared datasets) are in-domain vectors too
+            if c % 5 == 0:
+                xr, yr = xa.copy(), ya.copy()
+                xr.setflags(write=False); yr.setflags(write=False)
+                try:
+                    vr = float(fn(xr, yr))
+                    if bits(vr) != bits(v1):
+                        viol("C07", f"{name}: value on read-only arrays {vr!r} differs from {v1!r}", meta)
+                except Exception as ex:
+                    viol("C07", f"{name} raised {type(ex).__name__} on read-only arrays (it writes through its arguments)", meta)
+                    viol("C06", f"{name} raised {type(ex).__name__} on read-only vectors instead of evaluating its closed form", meta)
+                    viol("C08", f"{name} raised {type(ex).__name__} on in-domain read-only vectors", meta)
+                res.hit("readonly_arrays")
             line = f"dist {k} {d} {ints(bits(v) for v in x)} {ints(bits(v) for v in y)}"
             lines.append(line); obs.append(v1); metas.append(meta)
             res.add_case(line, nontrivial=(d >= 2 and special != "equal"))
@@ -243,6 +258,41 @@ def run(rng, tier, res=None, metrics=None):
                 res.hit("closed_form_checked")
             except (decimal.InvalidOperation, ZeroDivisionError, ValueError):
                 res.hit("closed_form_undefined")
+            # the caller keeps using its arrays: after every evaluation above they must still hold the values the
+            # caller stored, so any metric evaluated NEXT on them still returns its closed form
+            if xa.tobytes() != xb or ya.tobytes() != yb:
+                for other in ("hamming", "euclidean"):
+                    if other in reg:
+                        try:
+                            hv = float(reg[other](xa, np.array(x)))
+                            if hv != 0.0:
+                                viol("C06", f"after evaluating {name} on u, {other}(u, fresh copy of the values stored in u) = {hv!r}; "
+                                            f"the closed form is 0", meta)
+                                viol("C08", f"after evaluating {name} on u, {other}(u, u') = {hv!r} for u' equal to the values stored in u", meta)
+                        except Exception:
+                            pass
+                try:
+                    va = float(fn(xa, ya)); ref = float(A.closed(name, x, y))
+                    if np.isfinite(ref) and not close(va, ref, 1e-9, 1e-12 if abs(ref) < 1 else 0.0) and close(v1, ref, 1e-9, 1e-12):
+                        viol("C06", f"{name}: re-evaluated on the same arrays gives {va!r}, closed form of the stored values {ref!r}", meta)
+                        viol("C08", f"{name}: d(x,y) evaluated twice on the same arrays gives {v1!r} then {va!r}", meta)
+                except Exception:
+                    pass
+            # degree-0 homogeneous metrics keep their value under a common rescaling of both vectors; checked at a
+            # scale where every coordinate, square and cube is finite (1e90) only for metrics that are scale-invariant
+            # at moderate scales on this very pair
+            if c % 3 == 0 and dom in ("real", "nonneg", "pos") and np.isfinite(v1):
+                try:
+                    v2s, v8s = float(fn(xa.copy() * 2.0, ya.copy() * 2.0)), float(fn(xa.copy() * 8.0, ya.copy() * 8.0))
+                    if abs(v1) > 1e-3 and abs(v2s - v1) <= 1e-9 * abs(v1) and abs(v8s - v1) <= 1e-9 * abs(v1) and all(abs(t) > 1e-3 for t in x + y):
+                        vh = float(fn(xa.copy() * 1e90, ya.copy() * 1e90))
+                        res.hit("scale_invariance_checked")
+                        if not abs(vh - v1) <= 1e-6 * abs(v1):
+                            viol("C08", f"{name} is scale-invariant on (x, y) at scales 2 and 8 but returns {vh!r} at scale 1e90 "
+                                        f"(value at scale 1: {v1!r}); all inputs and the result are finite", meta)
+                            viol("C06", f"{name}: closed form at scale 1e90 equals the one at scale 1 ({v1!r}); implementation {vh!r}", meta)
+                except Exception:
+                    pass
             if len(res.samples) < 3 and c == 0:
                 res.samples.append({"metric": name, "x": x, "y": y, "value": v1})
     model = run_driver(lines)
